@@ -181,6 +181,46 @@ pub fn scrutinee_family(kind: usize, k: usize) -> String {
     )
 }
 
+
+pub const OPERAND_VARIANTS: usize = 6;
+
+/// k branch points lifted out of ONE statement: conditionals (or matches) sitting in operand /
+/// argument positions of a single nested expression.  variant 0: operands of `+`, comparisons
+/// between variables, branches bare variables; 1: the same with comparisons against zero; 2:
+/// comparisons against literals, literal branches; 3: arguments of nested two-argument calls;
+/// 4: constructor arguments of one nested list; 5: four-way matches as operands
+pub fn operand_family(variant: usize, k: usize) -> String {
+    let cond = |i: usize| -> String {
+        let (l, r) = if i % 2 == 0 { ("x", "y") } else { ("y", "x") };
+        match variant {
+            0 | 3 | 4 => format!("(if {} == {} {{ {l} }} else {{ {r} }})", if i % 3 == 0 { "c" } else { l }, if i % 3 == 1 { "c" } else { r }),
+            1 => format!("(if {l} == 0 {{ {l} }} else {{ {r} }})"),
+            2 => format!("(if {l} == {i} {{ {i} }} else {{ 7 }})"),
+            _ => format!("(t.case {{ A => {l}, B => {r}, C => c, D => {i} }})"),
+        }
+    };
+    let mut e = "1".to_string();
+    for i in 0..k {
+        e = match variant {
+            3 => format!("g2({}, {e})", cond(i)),
+            4 => format!("Cons({}, {e})", cond(i)),
+            _ => format!("{} + ({e})", cond(i)),
+        };
+    }
+    let body = if variant == 4 {
+        let mut l = "Nil".to_string();
+        for i in 0..k {
+            l = format!("Cons({}, {l})", cond(i));
+        }
+        format!("sum({l})")
+    } else {
+        e
+    };
+    format!(
+        "{PRELUDE}def g2(v: i64, w: i64): i64 {{ v + w }}\ndef sum(l: List[i64]): i64 {{ l.case[i64] {{ Nil => 0, Cons(h, tl) => h + sum(tl) }} }}\ndef f(c: i64, x: i64, y: i64, t: T): i64 {{\n  {body}\n}}\ndef main(a: i64): i64 {{ f(a, 3, 4, B) }}\n"
+    )
+}
+
 pub fn random_size_family(c: &mut Chooser) -> (Vec<usize>, Vec<usize>, usize, usize) {
     let n = 1 + c.choose(3);
     let kinds: Vec<usize> = (0..n).map(|_| c.choose(KINDS)).collect();
